@@ -785,7 +785,11 @@ def replay_gen(chk, prop, rep):
     bad = 0
     for i, c in enumerate(r["cases"]):
         if c["p"] == rep["program_id"] and c["state"] == rep["state"]:
-            for j, why in PREDS[prop](pmap[c["p"]], c, r["impl"][i][0], r["impl"][i][1]):
+            kf = dict(known_findings(prop))
+            for item in PREDS[prop](pmap[c["p"]], c, r["impl"][i][0], r["impl"][i][1]):
+                j, why = item[0], item[1]
+                if len(item) > 2 and item[2] in kf:
+                    continue       # a recorded finding, not a violation
                 if j == rep["operation_index"]:
                     print("replay: operation %s -> %s: %s" % (json.dumps(op_text(c["ops"][j])), json.dumps(_short(r["impl"][i][0][j])), why))
                     bad = 1
